@@ -1,6 +1,7 @@
 package genwl
 
 import (
+	"google.golang.org/protobuf/types/dynamicpb"
 	"math"
 	"sort"
 
@@ -23,6 +24,8 @@ type variant struct {
 	splitEmpty   bool // with splitMsg: cut at the very start or the very end, so that one of the occurrences is empty
 	oneofMulti   bool // another member of the oneof before the real one (last wins)
 	oneofABA     bool // with oneofMulti, message members: an earlier occurrence of the SAME member, then another member, then the real one
+	oneofMsgLoser bool // with oneofMulti: the member that loses is a message member (written empty) where the oneof has one
+	oneofABAFull  bool // with oneofABA: the earlier occurrence A' is a different, self-sufficient value of the member type (every required field set)
 	mapShape     int  // 0 normal, 1 value-then-key, 2 omit zero key, 3 omit zero value, 4 duplicate key (first with other value)
 	explicitZero bool // implicit-presence fields holding zero are written explicitly
 	unknown      bool // unknown fields interleaved at every level
@@ -41,6 +44,8 @@ var variantFamilies = []variant{
 	{family: "splitmsg+unknown", splitMsg: true, unknown: true},
 	{family: "oneofmulti", oneofMulti: true},
 	{family: "oneof-aba", oneofMulti: true, oneofABA: true},
+	{family: "oneof-aba-full", oneofMulti: true, oneofABA: true, oneofABAFull: true},
+	{family: "oneof-msgloser", oneofMulti: true, oneofMsgLoser: true},
 	{family: "mapswap", mapShape: 1},
 	{family: "mapomitkey", mapShape: 2},
 	{family: "mapomitval", mapShape: 3},
@@ -320,7 +325,11 @@ func (e *venc) message(m protoreflect.Message, depth int) []byte {
 						// A' B A: the earlier A' (which carries a field the real value does not have) is wiped out by B, the
 						// final value is A alone - nothing of A' may be merged into it
 						extra := refwire.AppendVarint(refwire.AppendKey(nil, 536870001, refwire.WTVarint), 77)
-						first := refwire.AppendLen(refwire.AppendKey(nil, int(fd.Number()), refwire.WTLen), append(append([]byte(nil), full...), extra...))
+						firstBody := append(append([]byte(nil), full...), extra...)
+					if e.v.oneofABAFull {
+						firstBody = append(e.message(minimalComplete(fd.Message(), 0).ProtoReflect(), depth+1), extra...)
+					}
+					first := refwire.AppendLen(refwire.AppendKey(nil, int(fd.Number()), refwire.WTLen), firstBody)
 						chunks = append(chunks, append(append(first, c...), real...))
 					} else {
 						chunks = append(chunks, append(c, real...))
@@ -400,6 +409,15 @@ func (e *venc) message(m protoreflect.Message, depth int) []byte {
 // oneofLoser encodes a different member of fd's oneof (it must lose against fd which follows it).
 func (e *venc) oneofLoser(m protoreflect.Message, fd protoreflect.FieldDescriptor, depth int) []byte {
 	od := fd.ContainingOneof()
+	if e.v.oneofMsgLoser {
+		for i := 0; i < od.Fields().Len(); i++ {
+			if o := od.Fields().Get(i); o.Number() != fd.Number() && o.Kind() == protoreflect.MessageKind {
+				// an empty value of a message member: whatever it lacks is of no concern, it is not the final value
+				return refwire.AppendLen(refwire.AppendKey(nil, int(o.Number()), refwire.WTLen), nil)
+			}
+		}
+		return nil
+	}
 	for i := 0; i < od.Fields().Len(); i++ {
 		o := od.Fields().Get(i)
 		if o.Number() == fd.Number() || o.Kind() == protoreflect.MessageKind {
@@ -495,4 +513,24 @@ func padVarint(b []byte, extra int) []byte {
 		b = append(b, 0x80)
 	}
 	return append(b, 0x00)
+}
+
+// minimalComplete returns a value of md in which every required field (recursively) is set, to its default.
+func minimalComplete(md protoreflect.MessageDescriptor, depth int) *dynamicpb.Message {
+	d := dynamicpb.NewMessage(md)
+	if depth > 6 {
+		return d
+	}
+	for i := 0; i < md.Fields().Len(); i++ {
+		fd := md.Fields().Get(i)
+		if fd.Cardinality() != protoreflect.Required {
+			continue
+		}
+		if fd.Kind() == protoreflect.MessageKind || fd.Kind() == protoreflect.GroupKind {
+			d.Set(fd, protoreflect.ValueOfMessage(minimalComplete(fd.Message(), depth+1).ProtoReflect()))
+		} else {
+			d.Set(fd, fd.Default())
+		}
+	}
+	return d
 }
